@@ -19,14 +19,22 @@ func (r c04Res) String() string { return fmt.Sprintf("status=%d stdout=%q", r.St
 
 // c04BashCache memoises bash results by program text: a simplified program is
 // very often the text of another enumerated program. bash is deterministic
-// for the texts of this check (no $$, no time, no randomness).
+// for the texts of this check (no $$, no time, no randomness, every
+// background job is waited for).
 var c04BashCache sync.Map // string -> c04Res
 
 const c04Sep = "\x01"
 
-// c04Bash runs every text in its own subshell of ONE bash process, with
-// `eval` so that a text bash cannot parse only fails itself, stderr discarded
-// and stdin empty. The texts must not print byte 0x01.
+// c04Reset undoes what a program of this check can leave behind in the shell
+// that evaluates the next one (everything else is set again by the prelude
+// each program starts with). fork costs 100+ ms on the loaded machine, so the
+// programs are evaluated in ONE shell without a subshell each.
+const c04Reset = `unset -v u l v k q d h b c arr m st 2>/dev/null; unset -f f cat ret 2>/dev/null; unalias -a; IFS=$' \t\n'`
+
+// c04Bash evaluates every text with `eval` in the main shell of one bash
+// process (stderr discarded, stdin empty), c04Reset in between. A text that
+// terminates the shell is re-run alone inside a subshell and the batch
+// continues after it. The texts must not print byte 0x01.
 func c04Bash(texts []string, dir string) (map[string]c04Res, error) {
 	res := map[string]c04Res{}
 	var todo []string
@@ -42,39 +50,57 @@ func c04Bash(texts []string, dir string) (map[string]c04Res, error) {
 		}
 		todo = append(todo, t)
 	}
-	if len(todo) == 0 {
-		return res, nil
-	}
-	var sb strings.Builder
-	for _, t := range todo {
-		fmt.Fprintf(&sb, "( eval %s ) 2>/dev/null </dev/null; printf '\\001%%d\\001\\n' $?\n", oracle.ShQuote(t))
-	}
-	out, _, err := oracle.ShellFile("bash", sb.String(), dir)
-	if err != nil {
-		return nil, err
-	}
-	rest := string(out)
-	for _, t := range todo {
-		i := strings.Index(rest, c04Sep)
-		if i < 0 {
-			return nil, fmt.Errorf("bash batch output truncated (%d texts)", len(todo))
+	isolated := false // run the first text of todo in a subshell
+	for len(todo) > 0 {
+		var sb strings.Builder
+		n := len(todo)
+		if isolated {
+			n = 1
+			fmt.Fprintf(&sb, "( eval %s ) 2>/dev/null </dev/null; printf '\\001%%d\\001\\n' $?\n", oracle.ShQuote(todo[0]))
+		} else {
+			for _, t := range todo {
+				fmt.Fprintf(&sb, "%s\neval %s 2>/dev/null </dev/null; printf '\\001%%d\\001\\n' $?\n", c04Reset, oracle.ShQuote(t))
+			}
 		}
-		j := strings.Index(rest[i+1:], c04Sep)
-		if j < 0 {
-			return nil, fmt.Errorf("bash batch output truncated")
-		}
-		st, err := strconv.Atoi(rest[i+1 : i+1+j])
+		out, _, err := oracle.ShellFile("bash", sb.String(), dir)
 		if err != nil {
-			return nil, fmt.Errorf("bash batch: bad status %q", rest[i+1:i+1+j])
+			return nil, err
 		}
-		r := c04Res{Out: rest[:i], Status: st}
-		rest = rest[i+1+j+1:]
-		rest = strings.TrimPrefix(rest, "\n")
-		res[t] = r
-		c04BashCache.Store(t, r)
-	}
-	if strings.TrimSpace(rest) != "" {
-		return nil, fmt.Errorf("bash batch: trailing output %q", rest)
+		rest := string(out)
+		done := 0
+		for _, t := range todo[:n] {
+			i := strings.Index(rest, c04Sep)
+			if i < 0 {
+				break
+			}
+			j := strings.Index(rest[i+1:], c04Sep)
+			if j < 0 {
+				break
+			}
+			st, err := strconv.Atoi(rest[i+1 : i+1+j])
+			if err != nil {
+				return nil, fmt.Errorf("bash batch: bad status %q", rest[i+1:i+1+j])
+			}
+			r := c04Res{Out: rest[:i], Status: st}
+			rest = strings.TrimPrefix(rest[i+1+j+1:], "\n")
+			res[t] = r
+			c04BashCache.Store(t, r)
+			done++
+		}
+		if done == n {
+			if strings.TrimSpace(rest) != "" {
+				return nil, fmt.Errorf("bash batch: trailing output %q", rest)
+			}
+			todo = todo[n:]
+			isolated = false
+			continue
+		}
+		if isolated {
+			return nil, fmt.Errorf("bash: isolated run of %q produced no result", todo[0])
+		}
+		// the shell died while evaluating todo[done]
+		todo = todo[done:]
+		isolated = true
 	}
 	return res, nil
 }
